@@ -334,6 +334,8 @@ def detection_sweep(rep, r, n):
         ny, nx = r.randint(40, 56), r.randint(40, 56)
         img, pos = scene(r, ny, nx, r.randint(2, 4), 10, noise=0.5)
         dy, dx, NY, NX = offsets(r, ny, nx)
+        if k % 2 == 1 and dx % 2 == 0:
+            dx, NX = dx + 1, NX + 1                             # an odd offset along x for the half-pixel xycoords scenes
         big = embed(img, NY, NX, dy, dx)
         rp = {'api': 'detection', 'data': img.tolist(), 'offset': [dx, dy], 'canvas': [NY, NX]}
         rep.case(('det', img.tobytes(), dx, dy), dx > 0 and dy > 0, kind='detection')
@@ -355,13 +357,21 @@ def detection_sweep(rep, r, n):
                 continue
             yy, xx = np.mgrid[-3:4, -3:4]
             kern = np.exp(-(xx ** 2 + yy ** 2) / (2 * 1.2 ** 2))
-            finders = {'DAOStarFinder': lambda: DAOStarFinder(threshold=5.0, fwhm=3.0),
-                       'IRAFStarFinder': lambda: IRAFStarFinder(threshold=5.0, fwhm=3.0),
-                       'StarFinder': lambda: StarFinder(threshold=5.0, kernel=kern)}
+            finders = {'DAOStarFinder': lambda **kw: DAOStarFinder(threshold=5.0, fwhm=3.0, **kw),
+                       'IRAFStarFinder': lambda **kw: IRAFStarFinder(threshold=5.0, fwhm=3.0, **kw),
+                       'StarFinder': lambda **kw: StarFinder(threshold=5.0, kernel=kern)}
+            # every other scene: the positions are supplied (xycoords), on exact half-pixels - the pixel a position belongs to must not
+            # depend on the parity of its integer part (the offset is odd in at least one axis in half of these scenes)
+            kw0, kwT = {}, {}
+            if k % 2 == 1:
+                xyc = np.array([(math.floor(p_[0]) + 0.5, math.floor(p_[1]) + 0.5) for p_ in pos if 9 <= p_[0] <= nx - 10 and 9 <= p_[1] <= ny - 10])
+                if len(xyc):
+                    kw0, kwT = {'xycoords': xyc}, {'xycoords': xyc + np.array([dx, dy])}
+                    rp = dict(rp, xycoords=xyc.tolist())
             for name, mk in finders.items():
                 try:
-                    t0 = mk()(img)
-                    tT = mk()(big)
+                    t0 = mk(**kw0)(img)
+                    tT = mk(**kwT)(big)
                 except Exception as e:                              # noqa: BLE001
                     rep.violation(f'{name}-raises:{type(e).__name__}', f'{name} raised {e!r}', rp)
                     break
